@@ -156,6 +156,37 @@ func runC11(r *hk.Run) {
 		}
 		emit("random", ops)
 	}
+	// state-derived arguments: the next setter's argument is a function of the current value (its low / high
+	// 16 bits, its octets, bytes swapped, +-1): comparisons of an argument with the wrong part of the state
+	// ("unchanged, skip the write") only show on such pairs, which independent random draws hit 1 in 2^16
+	nd := r.N(1200, 12000)
+	for i := 0; i < nd; i++ {
+		val := uint32(r.Rng.Next()) & 0xffffff
+		ops := []c11op{{0, val >> 8, val & 0xff}}
+		l := 1 + r.Rng.Intn(6)
+		for j := 0; j < l; j++ {
+			parts := []uint32{val & 0xffff, val >> 8, (val >> 8 & 0xff) | (val&0xff)<<8, (val & 0xff) | (val>>16&0xff)<<8,
+				(val >> 8) + 1, (val >> 8) - 1, val >> 16, val & 0xff, val >> 8 & 0xff, (val & 0xff) << 8}
+			a := parts[r.Rng.Intn(len(parts))] & 0xffff
+			switch r.Rng.Intn(5) {
+			case 0, 1:
+				b := []uint32{val & 0xff, val >> 8 & 0xff, val >> 16, uint32(r.Rng.Next())}[r.Rng.Intn(4)] & 0xff
+				ops = append(ops, c11op{0, a, b})
+				val = a<<8 | b
+			case 2:
+				ops = append(ops, c11op{2, a, 0})
+				val = a<<8 | val&0xff
+			case 3:
+				ops = append(ops, c11op{1, a & 0xff, 0})
+				val = val&0xffff00 | a&0xff
+			default:
+				ops = append(ops, c11op{3, 0, 0})
+				val = (val + 1) & 0xffffff
+			}
+			ops = append(ops, c11op{4 + r.Rng.Intn(3), 0, 0})
+		}
+		emit("state_derived_args", ops)
+	}
 	if r.Thorough() {
 		// every one of the 2^24 states x AddOne and the reads, directly on the implementation
 		var c security.Count
